@@ -224,7 +224,7 @@ func (n *TNode) ops(f func(string)) {
 }
 
 func resolveIn(data map[string]interface{}, src string) (interface{}, error, bool, interface{}) {
-	sc, err := formula.ParseSourceCode([]byte(src))
+	sc, err := hostParse([]byte(src), true)
 	if err != nil {
 		return nil, fmt.Errorf("parse: %w", err), false, nil
 	}
@@ -461,7 +461,7 @@ var c06Repeat = core.Mon(c06, "same-runner-repeat", func(w *core.W, c *RepeatCas
 		return v, nil
 	}
 	src := map[string]string{"cond": "flag() ? 'yes' : 'no'", "and": "flag() && 'rhs'", "or": "flag() || 'rhs'", "nn": "flag() ?? 'rhs'", "not": "!flag()", "notnot": "!!flag()", "condcall": "(flag() ? 1 : 0) + (flag() ? 10 : 20)"}[c.Form]
-	sc, err := formula.ParseSourceCode([]byte(src))
+	sc, err := hostParse([]byte(src), true)
 	if err != nil {
 		return
 	}
